@@ -6,6 +6,10 @@ ALL = ["C%02d" % i for i in range(1, 21)]
 
 # id -> (engine, level, technique, text, note, design_ref)
 CHECKS = {
+ "C15": ("mc-remote", "model_checking",
+   "explicit-state BFS over command histories (dedup on canonical session state), every transition executed on the real remote handlers via the cfg-guarded in-binary driver; reference session model as oracle",
+   "Breadth-first search from the initial state (depth 4 quick / 6 thorough) and from 5 prepared non-initial states over a 55-symbol alphabet of valid, malformed, out-of-order and mistyped commands and message-arrival ticks; every transition re-executes the history on process_incoming_text_message / process_file_context inside the adlt binary (in-memory websocket). A reference session model decides: one reply frame of the right form per command and none on ticks, no panic, reply classes for open/close/pause/resume/stream/stop/change-window and for stale/never-issued/non-numeric ids, fresh ids, open flag and stream set consistent with the replies, frames only for live streams, every step (incl. close) returns within the watchdog.",
+   "Trusted: the driver hook (verif_driver.rs; 3 inserted statements in process_file_context, inert unless armed), the abstraction of the socket event loop by explicit ticks, the dedup assumption stated in the evidence. Not covered: socket I/O errors, the TCP accept path (thorough replays explored histories over a real websocket).", "4 C15"),
  "C08": ("mc-seq", "exploration",
    "exhaustive enumeration of ground-truth boot traces (parameters x permutations x interleavings) on the real lifecycle stage",
    "Every trace of the stated product (1-3 ECUs, 1-3 boots, timestamp profiles, per-boot delays, off-times, all message permutations inside a boot, all interleavings of the ECU streams) that satisfies the property's premise is run through the real detector and compared with the generator's ground truth: one lifecycle per boot, message assignment, start = boot+delay, end = start+max timestamp, counts. Candidates outside the premise are counted, not judged.",
@@ -73,6 +77,8 @@ def main():
       "engines": [
         {"name": "mc-sched", "path": "/verif/mc-sched", "serves_properties": ["C13"],
          "kind_free_text": "shuttle runtime + own bounded DFS scheduler over real adlt stage threads (cfg adlt_verif_sched)"},
+        {"name": "mc-remote", "path": "/verif/mc/src/rem.rs", "serves_properties": ["C15", "C16"],
+         "kind_free_text": "explorer in /verif/mc driving the hidden cfg(adlt_verif) subcommand 'adlt verif-driver' (real remote handler functions over an in-memory websocket, explicit message-arrival ticks)"},
         {"name": "mc-seq", "path": "/verif/mc", "serves_properties": [p for p in ALL if p in CHECKS and CHECKS[p][0]=="mc-seq"],
          "kind_free_text": "Rust explorers linked against /repo's library (cfg adlt_verif): exhaustive enumeration of input-shape products, operation sequences, deviation-bounded event streams and explicit-state BFS by re-execution, sharded over worker processes"},
       ],
